@@ -193,13 +193,13 @@ func (o *functionOperator) Next(ctx context.Context) ([]model.StepVector, error)
 		// scalar() depends on number of samples per vector and returns NaN if len(samples) != 1.
 		// So need to handle this separately here, instead of going via call which is per point.
 		if o.funcExpr.Func.Name == "scalar" {
-			if len(vector.Samples) <= 1 {
-				continue
+			val := math.NaN()
+			if len(vector.Samples) == 1 {
+				val = vector.Samples[0]
 			}
 
-			vectors[batchIndex].Samples = vector.Samples[:1]
-			vectors[batchIndex].SampleIDs = vector.SampleIDs[:1]
-			vector.Samples[0] = math.NaN()
+			vectors[batchIndex].Samples = append(vector.Samples[:0], val)
+			vectors[batchIndex].SampleIDs = append(vector.SampleIDs[:0], 0)
 			continue
 		}
 
@@ -229,7 +229,8 @@ func (o *functionOperator) loadSeries(ctx context.Context) error {
 		}
 
 		if o.funcExpr.Func.Name == "scalar" {
-			o.series = []labels.Labels{}
+			// A single series without labels: sample IDs index this list.
+			o.series = []labels.Labels{nil}
 			return
 		}
 
